@@ -68,7 +68,8 @@ ENGINES = _raw.ENGINES
 _RAW_TEXT = ("Proof. Raw formats (BytesVec, ZeroCopyVec, EagerVec wrappers), Props/C03raw.v: C03_refines_raw - for ALL histories "
              "of push, truncate, write, flush, reset, re-import, update, delete, take, fill and stamped writes, all element types "
              "and retention settings, after EVERY step results, contents (length, deleted slots) and stamp equal the reference; "
-             "C03_reimport, C03_no_garbage, C03_write_ok (unbounded induction, Vec/RvRefine.v).")
+             "C03_reimport, C03_no_garbage, C03_write_ok (unbounded induction, Vec/RvRefine.v); C03_reachable_not_expanded "
+             "(without rollbacks the stored length never exceeds the on-disk length).")
 
 TEXT = dict(
     design_ref="DESIGN.md section 4, C03",
